@@ -32,8 +32,12 @@ def true_pos(text, start, off):
 class C10(Prop):
     id = "C10"
     driver = "C10"
-    lean_modules = ["Pfb.C10.Props"]
+    lean_modules = ["Pfb.C10.Props", "Pfb.C10.Cols"]
     theorems = [
+        "Pfb.C10.C10_col_prefix",
+        "Pfb.C10.C10_col_le_length",
+        "Pfb.C10.C10_col_mono",
+        "Pfb.C10.C10_col_ascii",
         "Pfb.C10.C10_lossless",
         "Pfb.C10.C10_statements_lossless",
         "Pfb.C10.C10_total",
@@ -52,6 +56,7 @@ class C10(Prop):
         ("lib/python/pyflyby/_parse.py", "_split_code_lines"),
         ("lib/python/pyflyby/_parse.py", "_is_comment_or_blank"),
         ("lib/python/pyflyby/_parse.py", "_annotate_ast_startpos"),
+        ("lib/python/pyflyby/_parse.py", "_char_col_offset"),
         ("lib/python/pyflyby/_parse.py", "_iter_child_nodes_in_order_internal_1"),
         ("lib/python/pyflyby/_parse.py", "PythonBlock.statements"),
         ("lib/python/pyflyby/_parse.py", "PythonBlock.string_literals"),
@@ -205,6 +210,26 @@ class C10(Prop):
         except Exception as e:
             obs["err"] = type(e).__name__
             obs["errmsg"] = str(e)[:200]
+        # byte-offset -> character-column conversion (the glue between `ast` columns and FilePos columns), on the
+        # first non-ASCII lines of the text, at every byte offset
+        try:
+            from pyflyby._parse import _char_col_offset
+            from pyflyby._file import FileText
+            import types
+            cc = []
+            ft = FileText(text)
+            for ln, line in enumerate(ft.lines, 1):
+                if not line.isascii() and len(line) <= 400:
+                    nb = len(line.encode("utf-8"))
+                    offs = list(range(nb + 1))
+                    cc.append(dict(line=line, offsets=offs,
+                                   got=[_char_col_offset(ft, types.SimpleNamespace(col_offset=b, lineno=ln)) for b in offs]))
+                    if len(cc) >= 2:
+                        break
+            if cc:
+                obs["charcol"] = cc
+        except Exception as e:
+            obs["charcol_err"] = type(e).__name__ + ": " + str(e)[:150]
         try:
             blk2 = PythonBlock(text, startpos=FilePos(start[0], start[1]))
             blk2.ast_node
@@ -333,9 +358,20 @@ class C10(Prop):
         except Exception:
             return []
         ends = [case["start"][0] + n.end_lineno - 1 for n in tree.body]
-        return [dict(op="statements", text=case["text"], start=case["start"], starts=starts, ends=ends)]
+        reqs = [dict(op="statements", text=case["text"], start=case["start"], starts=starts, ends=ends)]
+        for c in obs.get("charcol", []):
+            reqs.append(dict(op="charcol", line=c["line"], offsets=c["offsets"]))
+        return reqs
 
     def compare(self, case, obs, resps):
+        if "charcol_err" in obs:
+            return "column conversion raised: " + obs["charcol_err"]
+        for c, rr in zip(obs.get("charcol", []), resps[1:]):
+            if rr.get("ok") != c["got"]:
+                bad = [(b, g, w) for b, g, w in zip(c["offsets"], c["got"], rr.get("ok", [])) if g != w][:3]
+                return f"byte->char column: line={c['line']!r} (byte offset, impl, model)={bad}"
+            if rr.get("len") != len(c["line"].encode("utf-8")):
+                return f"utf-8 length of {c['line']!r}: model {rr.get('len')}"
         r = resps[0]
         if not r.get("wp") and "err" not in obs:
             return "hypothesis WellPlaced of the C10 theorems does not hold for this input (positions from stdlib ast)"
